@@ -107,6 +107,33 @@ where
         Some(Inst::combined(b))
     })
 }
+/// `clone_from` into an existing instance that was keyed differently (another accepted key
+/// length where the type has several), source dropped before use.
+fn mk_clone_from<T>(k: &[u8]) -> Made
+where
+    T: KeyInit + Clone + BlockCipherEncrypt + BlockCipherDecrypt + Send + Sync + 'static,
+{
+    guard(|| {
+        let a = T::new_from_slice(k).ok()?;
+        // the overwritten instance: first accepted length among a few candidates that differs from k's
+        let mut other: Option<T> = None;
+        for l in [32usize, 16, 24, 8, 56, 5, 128, 12, 9, 18, 64, 4, 1, 0, 255, 3, 7, 11, 13, 17, 20, 28, 31, 33, 41, 100, 200] {
+            if l != k.len() {
+                if let Ok(t) = T::new_from_slice(&vec![0xA7u8; l]) {
+                    other = Some(t);
+                    break;
+                }
+            }
+        }
+        let mut b = match other {
+            Some(t) => t,
+            None => T::new_from_slice(&k.iter().map(|x| !x).collect::<Vec<u8>>()).ok()?,
+        };
+        b.clone_from(&a);
+        drop(a);
+        Some(Inst::combined(b))
+    })
+}
 fn mk_pair<E, D>(k: &[u8]) -> Made
 where
     E: KeyInit + BlockCipherEncrypt + Send + Sync + 'static,
@@ -444,21 +471,27 @@ impl<S: magma::Sbox> SboxOf for magma::Gost89<S> {
     const TABLE: [[u8; 16]; 8] = S::SBOX;
     const SNAME: &'static str = S::NAME;
 }
-fn ref_gost_of<T: SboxOf>(k: &[u8]) -> Option<Box<dyn RefCipher>> {
-    // bundled sets: the reference is keyed with the frozen published table, not with whatever
-    // the crate currently exports (a typo in a bundled table must not carry over to the oracle)
-    let table = crate::bundled_sboxes::frozen(T::SNAME).unwrap_or(&T::TABLE);
-    refs::gost89(k, table)
+/// Bundled sets: the reference for a public alias is keyed with the frozen published table that
+/// the alias is documented to stand for - not with whatever table the alias currently resolves to
+/// (a typo in a table or a mis-wired alias must not carry over to the oracle).
+macro_rules! ref_gost_alias {
+    ($($f:ident => $t:ident),*) => {$(
+        fn $f(k: &[u8]) -> Option<Box<dyn RefCipher>> {
+            refs::gost89(k, &crate::bundled_sboxes::$t)
+        }
+    )*};
 }
+ref_gost_alias!(ref_gost_magma => TC26, ref_gost_test => TESTSBOX, ref_gost_cpa => CRYPTOPROA, ref_gost_cpb => CRYPTOPROB, ref_gost_cpc => CRYPTOPROC, ref_gost_cpd => CRYPTOPROD);
 /// (type alias, S::NAME, the table the crate currently exports) for the six bundled sets
-pub fn bundled_tables() -> Vec<(&'static str, &'static str, [[u8; 16]; 8])> {
+pub fn bundled_tables() -> Vec<(&'static str, &'static str, &'static str, [[u8; 16]; 8])> {
+    // (public alias, name of the published set it stands for, S::NAME it currently resolves to, table it currently exports)
     vec![
-        ("magma::Magma", <magma::Magma as SboxOf>::SNAME, <magma::Magma as SboxOf>::TABLE),
-        ("magma::Gost89Test", <magma::Gost89Test as SboxOf>::SNAME, <magma::Gost89Test as SboxOf>::TABLE),
-        ("magma::Gost89CryptoProA", <magma::Gost89CryptoProA as SboxOf>::SNAME, <magma::Gost89CryptoProA as SboxOf>::TABLE),
-        ("magma::Gost89CryptoProB", <magma::Gost89CryptoProB as SboxOf>::SNAME, <magma::Gost89CryptoProB as SboxOf>::TABLE),
-        ("magma::Gost89CryptoProC", <magma::Gost89CryptoProC as SboxOf>::SNAME, <magma::Gost89CryptoProC as SboxOf>::TABLE),
-        ("magma::Gost89CryptoProD", <magma::Gost89CryptoProD as SboxOf>::SNAME, <magma::Gost89CryptoProD as SboxOf>::TABLE),
+        ("magma::Magma", "Tc26", <magma::Magma as SboxOf>::SNAME, <magma::Magma as SboxOf>::TABLE),
+        ("magma::Gost89Test", "TestSbox", <magma::Gost89Test as SboxOf>::SNAME, <magma::Gost89Test as SboxOf>::TABLE),
+        ("magma::Gost89CryptoProA", "CryptoProA", <magma::Gost89CryptoProA as SboxOf>::SNAME, <magma::Gost89CryptoProA as SboxOf>::TABLE),
+        ("magma::Gost89CryptoProB", "CryptoProB", <magma::Gost89CryptoProB as SboxOf>::SNAME, <magma::Gost89CryptoProB as SboxOf>::TABLE),
+        ("magma::Gost89CryptoProC", "CryptoProC", <magma::Gost89CryptoProC as SboxOf>::SNAME, <magma::Gost89CryptoProC as SboxOf>::TABLE),
+        ("magma::Gost89CryptoProD", "CryptoProD", <magma::Gost89CryptoProD as SboxOf>::SNAME, <magma::Gost89CryptoProD as SboxOf>::TABLE),
     ]
 }
 
@@ -518,6 +551,7 @@ macro_rules! aes_family {
         add(n(stringify!($comb)), "new", mk_new::<$krate::$comb>, true);
         add(n(stringify!($comb)), "new_fixed", mk_fixed::<$krate::$comb>, false);
         add(n(stringify!($comb)), "clone", mk_clone::<$krate::$comb>, false);
+        add(n(stringify!($comb)), "clone_from", mk_clone_from::<$krate::$comb>, false);
         add(n(stringify!($comb)), "from_enc_ref", mk_comb_from_ref::<$krate::$enc, $krate::$comb>, false);
         add(n(stringify!($comb)), "from_enc_val+clone", mk_comb_from_val::<$krate::$enc, $krate::$comb>, false);
         add(n(concat!(stringify!($enc), "+", stringify!($dec))), "new+new", mk_pair::<$krate::$enc, $krate::$dec>, true);
@@ -539,6 +573,7 @@ macro_rules! kuz_family {
         add(n("Kuznyechik"), "new", mk_new::<$krate::Kuznyechik>, true);
         add(n("Kuznyechik"), "new_fixed", mk_fixed::<$krate::Kuznyechik>, false);
         add(n("Kuznyechik"), "clone", mk_clone::<$krate::Kuznyechik>, false);
+        add(n("Kuznyechik"), "clone_from", mk_clone_from::<$krate::Kuznyechik>, false);
         add(n("Kuznyechik"), "from_enc_ref", mk_comb_from_ref::<$krate::KuznyechikEnc, $krate::Kuznyechik>, false);
         add(n("Kuznyechik"), "from_enc_val+clone", mk_comb_from_val::<$krate::KuznyechikEnc, $krate::Kuznyechik>, false);
         add(n("KuznyechikEnc+KuznyechikDec"), "new+new", mk_pair::<$krate::KuznyechikEnc, $krate::KuznyechikDec>, true);
@@ -554,6 +589,7 @@ macro_rules! simple {
         $v.push(e($name, "new", $family, $prop, $krate, $lens, mk_new::<$t>, $rf, $evp, true));
         $v.push(e($name, "new_fixed", $family, $prop, $krate, vec![<$t as KeySizeUser>::KeySize::USIZE], mk_fixed::<$t>, $rf, $evp, false));
         $v.push(e($name, "clone", $family, $prop, $krate, $lens, mk_clone::<$t>, $rf, $evp, false));
+        $v.push(e($name, "clone_from", $family, $prop, $krate, $lens, mk_clone_from::<$t>, $rf, $evp, false));
     }};
 }
 macro_rules! simple_noclone {
@@ -619,12 +655,12 @@ pub fn entries() -> Vec<Entry> {
     kuz_family!(v, kuznyechik, "kuznyechik", false);
     #[cfg(feature = "shadows")]
     kuz_family!(v, kuz_neon, "S:kuz_neon", true);
-    simple!(v, magma::Magma, "magma::Magma", "gost89", "C07", "magma", vec![32], ref_gost_of::<magma::Magma>, None);
-    simple!(v, magma::Gost89Test, "magma::Gost89Test", "gost89", "C07", "magma", vec![32], ref_gost_of::<magma::Gost89Test>, None);
-    simple!(v, magma::Gost89CryptoProA, "magma::Gost89CryptoProA", "gost89", "C07", "magma", vec![32], ref_gost_of::<magma::Gost89CryptoProA>, None);
-    simple!(v, magma::Gost89CryptoProB, "magma::Gost89CryptoProB", "gost89", "C07", "magma", vec![32], ref_gost_of::<magma::Gost89CryptoProB>, None);
-    simple!(v, magma::Gost89CryptoProC, "magma::Gost89CryptoProC", "gost89", "C07", "magma", vec![32], ref_gost_of::<magma::Gost89CryptoProC>, None);
-    simple!(v, magma::Gost89CryptoProD, "magma::Gost89CryptoProD", "gost89", "C07", "magma", vec![32], ref_gost_of::<magma::Gost89CryptoProD>, None);
+    simple!(v, magma::Magma, "magma::Magma", "gost89", "C07", "magma", vec![32], ref_gost_magma, None);
+    simple!(v, magma::Gost89Test, "magma::Gost89Test", "gost89", "C07", "magma", vec![32], ref_gost_test, None);
+    simple!(v, magma::Gost89CryptoProA, "magma::Gost89CryptoProA", "gost89", "C07", "magma", vec![32], ref_gost_cpa, None);
+    simple!(v, magma::Gost89CryptoProB, "magma::Gost89CryptoProB", "gost89", "C07", "magma", vec![32], ref_gost_cpb, None);
+    simple!(v, magma::Gost89CryptoProC, "magma::Gost89CryptoProC", "gost89", "C07", "magma", vec![32], ref_gost_cpc, None);
+    simple!(v, magma::Gost89CryptoProD, "magma::Gost89CryptoProD", "gost89", "C07", "magma", vec![32], ref_gost_cpd, None);
     gost_user!(v; 0, 1, 2, 3, 4, 5, 6, 7, 8, 9, 10, 11, 12, 13, 14, 15);
     simple!(v, belt_block::BeltBlock, "belt_block::BeltBlock", "belt", "C07", "belt-block", vec![32], refs::belt, None);
     v.push(e("belt_block::belt_block_raw+BeltBlock", "raw", "belt", "C07", "belt-block", vec![32], belt_raw, refs::belt, None, false));
